@@ -477,21 +477,21 @@ func (s *session) request(r *rig.Rig, c string, n int) (recheck func()) {
 	case "CreateContainer":
 		var rpl *api.CreateContainerResponse
 		rpl, err = r.Ad.CreateContainer(ctx, &api.CreateContainerRequest{Pod: pod, Container: cont})
-		if err == nil {
+		if rpl != nil { // (a result handed back together with an error is recorded as well: there must be none)
 			tags = tagsOfAdjust(rpl.Adjust)
 			again = func() []string { return tagsOfAdjust(rpl.Adjust) }
 		}
 	case "UpdateContainer":
 		var rpl *api.UpdateContainerResponse
 		rpl, err = r.Ad.UpdateContainer(ctx, &api.UpdateContainerRequest{Pod: pod, Container: cont, LinuxResources: &api.LinuxResources{}})
-		if err == nil {
+		if rpl != nil {
 			tags = tagsOfUpdates(rpl.Update)
 			again = func() []string { return tagsOfUpdates(rpl.Update) }
 		}
 	case "StopContainer":
 		var rpl *api.StopContainerResponse
 		rpl, err = r.Ad.StopContainer(ctx, &api.StopContainerRequest{Pod: pod, Container: cont})
-		if err == nil {
+		if rpl != nil {
 			tags = tagsOfUpdates(rpl.Update)
 			again = func() []string { return tagsOfUpdates(rpl.Update) }
 		}
